@@ -210,7 +210,20 @@ fn exact_only(p: &Program) -> bool {
   p.tasks.iter().all(|t| block(&t.body))
 }
 
+fn has_volatile(p: &Program) -> bool {
+  fn block(b: &[Stmt]) -> bool {
+    b.iter().any(|s| match s {
+      Stmt::Read { chk, .. } | Stmt::Write { chk, .. } => *chk == RChk::Never,
+      Stmt::Require { chk, .. } => *chk == OChk::Never,
+      Stmt::If { then, els, .. } => block(then) || block(els),
+      Stmt::PanicIf { .. } => false,
+    })
+  }
+  p.tasks.iter().any(|t| block(&t.body))
+}
+
 fn c02_judge(case: &Case, run: &Run, an: &Analysis, stats: &mut Stats) -> CheckResult {
+  if has_volatile(&case.prog) { stats.class("program_with_a_never_consistent_checker"); }
   let exact = exact_only(&case.prog);
   if exact { stats.class("exact_only_program"); }
   let mut nontrivial = false;
@@ -235,7 +248,7 @@ fn c02_judge(case: &Case, run: &Run, an: &Analysis, stats: &mut Stats) -> CheckR
       // it again legitimately executes it (and tasks below it) again.
       let original_aborted = b.session > 0 && run.sessions[b.session - 1].builds.iter().any(|x| matches!(x.result, engine::BuildResult::Panic(_)));
       // While checker faults are armed, a failing check legitimately forces re-execution in every session.
-      let faults_armed = !run.sessions[b.session].faults.is_empty();
+      let faults_armed = !run.sessions[b.session].faults.is_empty() || has_volatile(&case.prog);
       if faults_armed { stats.class("probe_not_judged_while_checker_faults_are_armed"); }
       if b.panic.is_none() && !original_aborted && !faults_armed && !b.executed.is_empty() {
         return Err(Failure::new(format!("[I4-idempotence] session {}: requiring T{} again with nothing changed executed {:?}", b.session, t, b.executed)));
@@ -252,6 +265,9 @@ fn c02_cfg(t: Tier) -> GenCfg {
   // A checker error is an inconsistency reported by the dependency's own checker: validation must stop there too.
   c.faulty = true;
   c.fault_steps = true;
+  // Volatile dependencies (checker never consistent): re-executed whenever validated - but still at most once per session.
+  c.rchks = RCHKS_VOLATILE.to_vec();
+  c.ochks = OCHKS_VOLATILE.to_vec();
   c
 }
 
@@ -423,7 +439,9 @@ pub const C04: Spec = Spec {
 
 fn c09_cfg(t: Tier) -> GenCfg {
   let mut c = bu_cfg(t);
-  c.wchks = RCHKS.to_vec();
+  c.wchks = RCHKS_VOLATILE.to_vec();
+  c.rchks = RCHKS_VOLATILE.to_vec();
+  c.ochks = OCHKS_VOLATILE.to_vec();
   c.exact_share = 0;
   c.bottom_up_weight = 3;
   c.task_panic_share = 2;
